@@ -227,8 +227,53 @@ func forwardEvent(w *stageWorker, outChans map[string]bool) func(ssa.Instruction
 			outChans[ir.Path(ch)] = true
 			return true
 		}
+		if ch, ok := forwarderCall(in, w.Seed); ok {
+			outChans[ir.Path(ch)] = true
+			return true
+		}
 		return false
 	}
+}
+
+// forwarderCall: `in` calls a module helper with the seed as an argument, and the helper — on every path that
+// does not leave through a ctx.Done() arm — sends that parameter exactly once on an item channel. Returns the
+// channel (named inside the helper).
+func forwarderCall(in ssa.Instruction, seed ssa.Value) (ssa.Value, bool) {
+	c, ok := in.(*ssa.Call)
+	if !ok {
+		return nil, false
+	}
+	h := ir.CalleeOf(c.Common())
+	if h == nil || !core.InModule(h) || h.Blocks == nil {
+		return nil, false
+	}
+	k := -1
+	for i, a := range c.Call.Args {
+		if ir.SameValue(a, seed) {
+			k = i
+		}
+	}
+	if k < 0 || k >= len(h.Params) {
+		return nil, false
+	}
+	par := h.Params[k]
+	var ch ssa.Value
+	ev := func(x ssa.Instruction) bool {
+		if c2, v, okS := sendOf(x); okS && ir.SameValue(v, par) && isItemChan(c2.Type()) {
+			ch = c2
+			return true
+		}
+		if c2, okF := forwardingSelect(h, x, par, h.Blocks[0]); okF {
+			ch = c2
+			return true
+		}
+		return false
+	}
+	res := ir.ExactlyOnce(ir.Region{Start: ir.Entry(h)}, ev, ir.Opts{EdgeOK: pruneStopArms(h)})
+	if !res.OK || ch == nil {
+		return nil, false
+	}
+	return ch, true
 }
 
 func ruleFwd(r *core.Reporter) {
